@@ -1,6 +1,6 @@
 """C20 - Unitree G1 episodes are randomised within range and gait phase stays coherent.
 
-MC : spec/mc/MC_Gait (Gait.tla): K in {8,12,16,20}, all increments, 3K steps: phases in range, half a cycle apart, advance by the
+MC : spec/mc/MC_Gait (Gait.tla): K in {8,12,16,20}, all increments 0..3K (up to three cycles per control step), 3K steps: phases in range, half a cycle apart, advance by the
      increment; foot height (exact rationals) within [0, swing], vanishing at -pi, peaking at 0, monotone on each half.
 C2S: the real advance_gait_phase / desired_foot_height along tick grids (every K, m; long histories) -> Trace_Gait;
      thorough tier: real G1 episodes (three tasks): gait phase along env.step histories with the state's own frequency, and per
@@ -19,9 +19,9 @@ LEVEL = "model_checking"
 SPEC = "trace/Trace_Gait.tla"
 
 
-def to_ticks(phase, K):
+def to_ticks(phase, K, tol=1e-3):
     t = float(phase) * K / (2 * math.pi)
-    return int(round(t)), bool(abs(t - round(t)) < 1e-3)
+    return int(round(t)), bool(abs(t - round(t)) < tol)
 
 
 def record_pure(K: int, m: int, n_steps: int, swing: float) -> dict:
@@ -33,11 +33,15 @@ def record_pure(K: int, m: int, n_steps: int, swing: float) -> dict:
     l0, ok_l = to_ticks(ph[0], K)
     r0, ok_r = to_ticks(ph[1], K)
     evs = []
-    for _ in range(n_steps):
+    for i in range(n_steps):
         ph = advance_gait_phase(ph, jnp.asarray(f, dtype=jnp.float32), jnp.asarray(dt, dtype=jnp.float32))
         h = np.asarray(desired_foot_height(ph, swing)) / swing
-        (l, g1), (r, g2) = to_ticks(ph[0], K), to_ticks(ph[1], K)
-        evs.append(dict(l=l, r=r, hl=int(round(float(h[0]) * 1e4)), hr=int(round(float(h[1]) * 1e4)), on_grid=bool(g1 and g2)))
+        # float32 rounding of phase + increment (values up to 4 pi + increment) accumulates along the history: about 1e-5 ticks
+        # per step at the largest increments; a wrong increment or wrap is off by a fixed fraction of a tick from the first step on
+        tol = min(1e-3 + 1e-4 * (i + 1) * max(1, m // K + 1), 0.05)
+        (l, g1), (r, g2) = to_ticks(ph[0], K, tol), to_ticks(ph[1], K, tol)
+        cl = lambda x: int(max(-10 ** 6, min(10 ** 6, round(float(x) * 1e4)))) if np.isfinite(x) else 10 ** 6      # TLC integers are 32-bit
+        evs.append(dict(l=max(-10 ** 6, min(10 ** 6, l)), r=max(-10 ** 6, min(10 ** 6, r)), hl=cl(h[0]), hr=cl(h[1]), on_grid=bool(g1 and g2)))
     return {"K": K, "m": m, "init": {"l": l0, "r": r0}, "events": evs, "atoms": {"InitialPhasesAreZeroAndPi": bool(ok_l and ok_r and l0 == 0 and r0 == K // 2)}}
 
 
@@ -114,7 +118,8 @@ def run(ctx: Ctx) -> Report:
     cases = []
     for K in (8, 12, 16, 20, 32):
         ms = list(range(1, K)) if K <= 16 else ctx.rng.sample(range(1, K), min(K - 1, ctx.pick(6, 20)))
-        for m in ms:
+        # increments of a whole cycle and more per control step (gait frequency x dt >= 1) and the standing gait (m = 0)
+        for m in ms + [0, K, K + 1, K + K // 2, 2 * K + 3, 3 * K - 1]:
             cases.append({"kind": "pure", "K": K, "m": m, "n": ctx.pick(3 * K, 12 * K), "swing": ctx.rng.choice([0.15, 0.08, 0.25])})
     traces = [record_pure(c["K"], c["m"], c["n"], c["swing"]) for c in cases]
     rt, rc = randomize_traces(ctx)
